@@ -60,6 +60,29 @@ CLAIMED["C12"] = ("Unbounded proof of the history chain: buildNewFooter links ev
   "Assumed: the recovery scan returns the footer at the offset it is started from (C05), persistFooter writes what it is given (trusted here), JSON round trip. "
   "Known finding S16b (child data of a reverted snapshot is dropped by the next persist); fixed S16 (history link).", "6/C12")
 
+CLAIMED["C05"] = ("Unbounded proof of the parts of crash safety a contract on moss can carry: (1) the recovery scan ScanFooter, for EVERY file content and size (file reads return "
+  "arbitrary bytes), never panics or allocates a negative size and, unless a file operation failed, ends with a footer or ErrNoValidFooter - torn tails, half written footers, "
+  "look-alikes of the magic and garbage are skipped; (2) persistFooter never writes a footer while earlier writes are unsynced and returns success only with everything synced "
+  "(unless NoSync); (3) the footer is placed at the first page boundary at or after the end of the file, every WriteAt is at or beyond the known file size (append-only).",
+  "The crash model (which images a crash can leave, that Sync makes writes durable, directory operation ordering) is assumed; that the scan returns the LAST complete footer and that "
+  "openStore falls back to an older file are not under contract yet (S3: header-less newest file, not fixed). binary.Read on in-memory buffers trusted not to fail; loadSegments assumed to "
+  "fail only on I/O failure. Fixed findings S1, S2.", "6/C05")
+CLAIMED["C06"] = ("Unbounded proof of error propagation and non-publication for every sequence of file-operation results (each File call returns a nondeterministic result; a short write "
+  "counts as a failure): persistFooter/persistFooterUnsynced report any failed or short write or sync; the writer goroutine of bufferedSectionWriter hands a failure back as an "
+  "error; Store.persist, compact and compactMaybe leave s.footer untouched whenever they return an error.",
+  "persistBasicSegment (two goroutines reporting over a channel), persistHeader and the Stop()/Flush() side of the buffered writer are not under contract (channel protocol not modelled; "
+  "covered by witness test only); runPersister's retry (same stack offered again) belongs to C13; the progress half (catches up afterwards) is outside this family. Fixed finding S6.", "6/C06")
+CLAIMED["C09"] = ("Unbounded proof for the single-segment path: findStartKeyInclusivePos is the lower bound for any index window; Cursor/segmentCursor Current/Next/Seek/nextDelta; "
+  "iteratorSingle.Next moves to the smallest later enumerated position (deletions skipped unless asked for), stays done once done, terminates (measure); CurrentEx/Current return the "
+  "entry under the cursor; SeekTo(x) lands on the smallest enumerated in-range position with key >= x for forward, backward and after-exhaustion seeks, including the naiveSeekTo loop.",
+  "The general heap iterator (iterator.Next/SeekTo over container/heap) is not under contract (planned as a bounded stand-in, not counted as proved); merge resolution in "
+  "iterator.Current belongs to C08. Fixed finding S23 (found by the verifier).", "6/C09")
+CLAIMED["C15"] = ("Unbounded proof of the reference accounting primitives: FileRef/mmapRef/Footer/segmentStack/SnapshotWrapper AddRef/DecRef change exactly one count by one; at zero the "
+  "next level is released exactly once (file closed and dropped, mapping dropped and its file count released, footer drops its locations and the count it holds on every child footer, "
+  "nothing at its level or above is touched); counts above zero keep file, mapping and locations; Store.snapshot adds exactly one count to the current footer.",
+  "Exact accounting across shared mappings/files (SegmentLocs.AddRef/DecRef over possibly shared mmapRefs) is trusted, as are Unmap/Close/Remove; per-function balance of persist/compact/"
+  "snapshotPrevious is not under contract yet; footer trees assumed to be trees (ghost depth). Fixed findings S12, S17.", "6/C15")
+
 NA_REASONS = {
  "C17": "data-race freedom in the Go memory model is a whole-program property over every access (incl. runtime, mmap-go, ghistogram); no contract within reach of a "
         "sequential VC generator decides it (DESIGN.md section 7)",
